@@ -1257,7 +1257,8 @@ func resolveAccLookup(c *Ctx, acc ssa.Value) (m, key ssa.Value) {
 	if cal == nil || !c.P.isModuleFn(cal) || len(cal.Blocks) == 0 {
 		return nil, nil
 	}
-	var mp, kp *ssa.Parameter
+	var mapV ssa.Value // the map as the helper sees it: a parameter, or a captured variable
+	var kp *ssa.Parameter
 	n := 0
 	for _, b := range cal.Blocks {
 		ret, ok := b.Instrs[len(b.Instrs)-1].(*ssa.Return)
@@ -1269,25 +1270,43 @@ func resolveAccLookup(c *Ctx, acc ssa.Value) (m, key ssa.Value) {
 			return nil, nil
 		}
 		var lkX, lkIndex ssa.Value
-		if lk := lookupOf(ret.Results[0]); lk != nil {
+		rv := ret.Results[0]
+		if lk := lookupOf(rv); lk != nil {
 			lkX, lkIndex = lk.X, lk.Index
-		} else if _, isCall := ret.Results[0].(*ssa.Call); !isCall {
-			lkX, lkIndex = resolveAccLookup(c, ret.Results[0]) // the comma-ok get-or-create form
+		} else if _, isCall := rv.(*ssa.Call); !isCall {
+			lkX, lkIndex = resolveAccLookup(c, rv) // the comma-ok get-or-create form
+			if lkX == nil && rv.Referrers() != nil {
+				// the entry that was just created and stored under the key
+				for _, r := range *rv.Referrers() {
+					if mu, isMU := r.(*ssa.MapUpdate); isMU && mu.Value == rv && (mu.Block() == b || mu.Block().Dominates(b)) {
+						lkX, lkIndex = mu.Map, mu.Key
+					}
+				}
+			}
 		}
 		if lkX == nil {
 			return nil, nil
 		}
-		m1, ok1 := lkX.(*ssa.Parameter)
 		k1, ok2 := lkIndex.(*ssa.Parameter)
-		if !ok1 || !ok2 || (mp != nil && (mp != m1 || kp != k1)) {
+		if !ok2 || (kp != nil && kp != k1) {
 			return nil, nil
 		}
-		mp, kp = m1, k1
+		if mapV != nil && mapV != lkX && mapCellOf(c, mapV) != mapCellOf(c, lkX) {
+			return nil, nil
+		}
+		mapV, kp = lkX, k1
 	}
-	if n == 0 || mp == nil {
+	if n == 0 || mapV == nil {
 		return nil, nil
 	}
-	return call.Call.Args[paramIndex(mp)], call.Call.Args[paramIndex(kp)]
+	if mp, isParam := mapV.(*ssa.Parameter); isParam {
+		return call.Call.Args[paramIndex(mp)], call.Call.Args[paramIndex(kp)]
+	}
+	// a map captured by a local closure: the variable itself (callers resolve it to its cell)
+	if mapCellOf(c, mapV) == mapV {
+		return nil, nil
+	}
+	return mapV, call.Call.Args[paramIndex(kp)]
 }
 
 // sameMapAs: v is the map target, or a helper's parameter that every call site binds to it.
